@@ -266,7 +266,27 @@ impl Ser {
         if via_tokens {
             ctx.count("serialised.via_token_entry_points");
         }
+        // one case in four goes through a normalizer that really changes text and attribute values (what has to come back
+        // is then the normalised tree: escaping applies to the normaliser's result), one in four through the Write-based
+        // entry point into a writer that takes a few bytes per call
+        let with_norm14 = !via_tokens && rng.chance(1, 4);
+        let through_writer = !via_tokens && rng.chance(1, 4);
+        if with_norm14 {
+            ctx.count("serialised.with_a_changing_normalizer");
+        }
+        if through_writer {
+            ctx.count("serialised.through_a_chunking_writer");
+        }
+        let sub_expected = if with_norm14 { normalize_tree(&sub) } else { sub.clone() };
         let text = match guard(|| {
+            if through_writer {
+                let mut cw = ChunkWriter::new(1 + (pdesc.len() % 9));
+                let r = if with_norm14 { xot.serialize_xml_write_with_normalizer(params.clone(), target, &mut cw, TestNormalizer) } else { xot.serialize_xml_write(params.clone(), target, &mut cw) };
+                return r.map(|_| String::from_utf8_lossy(&cw.buf).into_owned());
+            }
+            if with_norm14 {
+                return xot.serialize_xml_string_with_normalizer(params.clone(), target, TestNormalizer);
+            }
             if !via_tokens {
                 return xot.serialize_xml_string(params.clone(), target);
             }
@@ -370,7 +390,7 @@ impl Ser {
         };
         // what the serialised subtree is expected to be: the subtree, plus (for an inner element) the in-scope
         // declarations the serialiser adds on the top element
-        let mut want = if sub.kind == AKind::Doc { sub.clone() } else { ANode::doc(vec![sub.clone()]) };
+        let mut want = if sub_expected.kind == AKind::Doc { sub_expected.clone() } else { ANode::doc(vec![sub_expected.clone()]) };
         let got_cmp = got.canon();
         want = want.canon();
         if !indent {
